@@ -804,6 +804,35 @@ def r01_13(ctx, p):
 
 
 # ------------------------------------------------------------------------------------------------
+def r01_14(ctx, p):
+    ctx.rule("R01.14", "set_trial_state_values keeps the stored values when the call carries none: every write of values is dominated by `values is not None`")
+    sites = [(INMEM + ".set_trial_state_values", "values"), (RDB + ".set_trial_state_values", "values"), (REPLAY + "._apply_set_trial_state_values", "log['values']")]
+    for q, vexpr in sites:
+        f = p.func(q)
+        g = CFG(f.node, name=f.qualname)
+
+        def atom(e, vexpr=vexpr):
+            a = cmp_atom(e)
+            if a and a[0] == vexpr and a[2] == "None":
+                return True if a[1] in (ast.IsNot, ast.NotEq) else (False if a[1] in (ast.Is, ast.Eq) else None)
+            return None
+        acc = [(t, k, m) for t in g.stmt_nodes() if t.kind == "test" for k, m in t.succ if edges_where(t.expr, atom).get(k) is True]
+        writes = []
+        for n in g.stmt_nodes():
+            if n.kind == "stmt" and isinstance(n.ast, ast.Assign) and any(isinstance(t, ast.Attribute) and t.attr == "values" for t in n.ast.targets):
+                writes.append(n)
+            for c in n.calls():
+                if self_attr(c.func) == "_set_trial_value_without_commit":
+                    writes.append(n)
+        ctx.require(writes, f"R01.14: value write not found in {q}")
+        ok = bool(acc) and all(g.dominated_by(w, [], acc) for w in writes)
+        ctx.check(ok, "R01.14", f.short, "values-kept-when-none-given",
+                  message=f"{f.name} overwrites the stored objective values even when the call carries values=None: a later state-only update "
+                          f"(e.g. RUNNING -> COMPLETE for a trial that already has values) erases them in this backend only",
+                  how="value write dominated by the `values is not None` edge", witness=g.witness(writes, edges=acc))
+
+
+# ------------------------------------------------------------------------------------------------
 KEY_COLUMNS = {"trial_id", "study_id", "key", "step", "objective", "param_name"}
 UPSERT_EXEMPT = {"record_heartbeat": "a new heartbeat row takes the column's server-side default timestamp; only the update writes it explicitly"}
 
@@ -887,3 +916,4 @@ def run(ctx):
     r01_11(ctx, p)
     r01_12(ctx, p)
     r01_13(ctx, p)
+    r01_14(ctx, p)
